@@ -910,7 +910,7 @@ func TestCheck(t *testing.T) {
 	r := Start(t, "C19")
 	defer r.Finish()
 	r.SpinWatch(BytesMoved)
-	r.Note("rule", "relay: all scripts up to the bound over {Aw, Bw (data, sizes 1/700/70000), Aeof, Beof, Arst, Brst, Awerr, Bwerr} (a write fault is followed by traffic towards it), the error value with which a side fails rotating through 12 kinds (connection reset, io.ErrClosedPipe, net.ErrClosed bare and wrapped, deadline exceeded, context.Canceled, plain, ...) and every kind x 14 single-failure scripts, each with distinct or PRNG (possibly equal) virtual instants, unbounded or 4 KiB sink windows, chunkings {all,1,PRNG}; termination monitor: all histories up to the bound over {handler start, finish (only while one is active), SIGINT, SIGTERM}, each with all events at distinct instants and with adjacent events merged into the same instant (every mask in the thorough tier, PRNG masks in quick); the main goroutine does what main() does: wait(false), and after a SIGINT wait(true). connection handlers: the program's clientHandler/serverHandler against stub factories, every kind of ending (SOCKS failure, bad arguments, dial failure at once / late, relay until the peer goes, transport handshake failure at once / after 40 s / late, ORPort unreachable) alone, in every ordered pair and in PRNG histories of 3..6, SIGINT 0 s / 1 s / 50 s after the last start; judged: the shutdown completes once every started handler has finished and not before. Non-trivial = every script/history; distinct = (script, timing, window, chunking) / (history grouping).")
+	r.Note("rule", "relay: all scripts up to the bound over {Aw, Bw (data, sizes 1/700/70000), Aeof, Beof, Arst, Brst, Awerr, Bwerr} (a write fault is followed by traffic towards it), the error value with which a side fails rotating through 12 kinds (connection reset, io.ErrClosedPipe, net.ErrClosed bare and wrapped, deadline exceeded, context.Canceled, plain, ...) and every kind x 14 single-failure scripts, each with distinct or PRNG (possibly equal) virtual instants, unbounded or 4 KiB sink windows, chunkings {all,1,PRNG}; termination monitor: all histories up to the bound over {handler start, finish (only while one is active), SIGINT, SIGTERM}, each with all events at distinct instants and with adjacent events merged into the same instant (every mask in the thorough tier, PRNG masks in quick); the main goroutine does what main() does: wait(false), and after a SIGINT wait(true). several relays: 4 copyLoops alive at once in one bubble driven round-robin from one goroutine (mon.Interleave: tiny reads, own PRF stream per direction); connection handlers: the program's clientHandler/serverHandler against stub factories, every kind of ending (SOCKS failure, bad arguments, dial failure at once / late, relay until the peer goes, transport handshake failure at once / after 40 s / late, ORPort unreachable) alone, in every ordered pair and in PRNG histories of 3..6, SIGINT 0 s / 1 s / 50 s after the last start; judged: the shutdown completes once every started handler has finished and not before. Non-trivial = every script/history; distinct = (script, timing, window, chunking) / (history grouping).")
 
 	// relay scripts
 	maxLen := r.Pick(3, 4)
@@ -1079,6 +1079,42 @@ func TestCheck(t *testing.T) {
 					}()
 				}
 			}
+		})
+	}
+
+	// several relays alive at once in one process, used in an interleaved way
+	// (whatever a relay keeps between calls - copy buffers - must be its own)
+	for g := 0; g < r.Pick(10, 150); g++ {
+		g := g
+		r.Case(fmt.Sprintf("relays-interleaved/%03d", g), func(c *Case) {
+			func() {
+				defer func() {
+					if e := recover(); e != nil {
+						c.Violation("relay/panic-or-wedge/several-relays", fmt.Sprintf("%v", e), nil)
+					}
+				}()
+				synctest.Test(c.T, func(t *testing.T) {
+					var links []Link
+					var ends []*Conn
+					var done []chan struct{}
+					for k := 0; k < 4; k++ {
+						a1, a2 := Pair(Options{})
+						b1, b2 := Pair(Options{})
+						ends = append(ends, a2, b2)
+						d := make(chan struct{})
+						done = append(done, d)
+						c.Go(func() { close(d) }, func() { copyLoop(a1, b1) })
+						links = append(links, Link{Name: fmt.Sprintf("relay%d", k), A: a2, B: b2})
+					}
+					Interleave(c, r, "relay/several-relays", links, r.Sub("relays", g))
+					for _, e := range ends {
+						e.Close()
+					}
+					for _, d := range done {
+						<-d
+					}
+				})
+			}()
 		})
 	}
 
